@@ -153,6 +153,11 @@ def run(ctx):
     for kt in sorted(set(clreg) & set(nreg)):
         np_ = K.n_params(kt)
         pv, ifs, okf = K.extract_checked(ctx, nreg[kt], False, np_)
+        # the Numba kernel's own special cases (a `p != 0` block, a `p == 0` branch) agree with its general formula at p = 0:
+        # otherwise the function the OpenCL kernel is compared with is not the function the Numba kernel computes there
+        r_kf = ctx.rule("K-FAST", "Numba kernels: a special case for a vanishing parameter equals the general formula at that value (checked per parameter)", 1)
+        r_kf.check(okf, nreg[kt], NK, nreg[kt], ctx.repo.mod(NK).fn(nreg[kt]).lineno, "special cases of " + nreg[kt],
+                   "%s: with the special case for one of %s taken the value differs from the general formula at that parameter = 0" % (nreg[kt], sorted(set(ifs))))
         for var in VARIANTS:
             cname = "%s_%s" % (clreg[kt], var)
             if cname not in fns:
